@@ -5,6 +5,7 @@ the manager calls (in the manager module's namespace, at run time) and by ordina
 import asyncio
 import contextvars
 import copy
+import json
 import logging
 import os
 import sys
@@ -100,10 +101,10 @@ def build(spec, tag=''):
             async def _cb(self, ev, node_id, payload):
                 rt = CUR.get()
                 nk = key(node_id) if node_id is not None else None
-                k = rt.count(('e', ev, str(nk), idx))
+                k = rt.count(('e', ev, json.dumps(nk), idx))
                 rt.trace.append(['emit', idx, ev, nk, payload])
                 if spec['mgr_gated']:
-                    await rt.new_gate(('e', ev, str(nk), idx, k))
+                    await rt.new_gate(('e', ev, json.dumps(nk), idx, k))
                 if [ev, nk, k] in spec['mgr_faults'] or [ev, nk, k, idx] in spec['mgr_faults']:
                     raise ps.make_exc('EA', -1, k)
 
@@ -132,10 +133,10 @@ def build(spec, tag=''):
             async def save(self, node_id, data):
                 rt = CUR.get()
                 nk = key(node_id)
-                k = rt.count(('s', str(nk)))
+                k = rt.count(('s', json.dumps(nk)))
                 rt.trace.append(['save', nk, ps.canon(data)])
                 if spec['store_gated']:
-                    await rt.new_gate(('s', str(nk), k))
+                    await rt.new_gate(('s', json.dumps(nk), k))
                 if [nk, k] in spec['store_faults']:
                     raise ps.make_exc('EA', -2, k)
                 if spec['store'] == 'writeonce':
@@ -208,40 +209,57 @@ def _exec_hook(loop):
                 fut.set_exception(res[1])
         # complete the awaited future in the same handle in which the gate is completed
         rt.exec_links = getattr(rt, 'exec_links', {})
-        rt.exec_links[('b', i, k)] = deliver
+        rt.exec_links[('b', i, k)] = (deliver, fut)
         return fut
     return on_executor
 
 
-def pending_gates(runs, loop):
-    """Sorted list of (gid, completer) over all runs + eligible timers."""
+def gate_json(g):
+    """internal gate id tuple -> canonical JSON gate id"""
+    if g[0] == 'b':
+        return ['b', g[1], g[2]]
+    if g[0] == 'e':
+        return ['e', g[1], json.loads(g[2]), g[3], g[4]]
+    if g[0] == 's':
+        return ['sv', json.loads(g[1]), g[2]]
+    raise ValueError(g)
+
+
+def pending_gates(runs, loop, multi=False):
+    """Sorted list of (canonical gid, completer) over all runs + live timers."""
     out = []
     for r in runs:
-        for g in r.rt.pending():
-            out.append((('R%d' % r.rt.run_idx,) + tuple(str(x) for x in g), ('gate', r, g)))
-    live = loop.live_timers()
-    if live:
-        w = min(t['when'] for t in live)
-        for t in live:
-            if t['when'] == w:
-                out.append((('T', str(t['owner']), '%06d' % t['seq']), ('timer', t)))
-    out.sort(key=lambda x: x[0])
+        links = getattr(r.rt, 'exec_links', {})
+        for g, f in r.rt.gates.items():
+            if f.done():
+                continue
+            if g in links and links[g][1].done():
+                continue        # the engine's await on the executor future was cancelled
+            gid = gate_json(g)
+            out.append(((['R', r.rt.run_idx] + gid) if multi else gid, ('gate', r, g)))
+    for t in loop.live_timers():
+        gid = t.get('gid') or ['t', -1, t['seq']]
+        out.append(((['R', t.get('run', 0)] + gid) if multi else gid, ('timer', t)))
+    out.sort(key=lambda x: json.dumps(x[0]))
     return out
 
 
 def complete(loop, what):
     if what[0] == 'timer':
-        loop.fire_timer(what[1])
+        # run the timer callback now: it resolves sleep()'s future, whose wake-up is one handle,
+        # exactly like the completion of any other gate
+        rec = what[1]
+        rec['fired'] = True
+        loop.now = max(loop.now, rec['when'])
+        if not rec['handle']._cancelled:
+            rec['handle']._run()
         return
     _, r, g = what
     links = getattr(r.rt, 'exec_links', {})
     f = r.rt.gates[g]
+    f.set_result(None)
     if g in links:
-        # executor gate: resolve the future the engine awaits directly (same handle structure as async gates)
-        f.set_result(None)
-        links[g](None)
-    else:
-        f.set_result(None)
+        links[g][0](None)
 
 
 def outcome_of(task):
@@ -258,16 +276,91 @@ def outcome_of(task):
     return ['error', ps.canon(r.error)]
 
 
-def run_schedule(spec, sched, n_runs=1, overlap=False, inputs=None, tag='', step_limit=200000, built=None,
+class Replay:
+    """Explicit action list; when exhausted: run to quiescence, then complete the first pending gate."""
+
+    def __init__(self, actions):
+        self.actions = list(actions)
+        self.pos = 0
+
+    def next(self, ready, pending):
+        if self.pos < len(self.actions):
+            a = self.actions[self.pos]
+            self.pos += 1
+            if a[0] == 'g' and isinstance(a[1], int):      # legacy: index into the sorted pending list
+                if not pending:
+                    return ['nop']
+                return ['g', pending[a[1] % len(pending)]]
+            return a
+        if ready:
+            return ['q']
+        if pending:
+            return ['g', pending[0]]
+        return None
+
+
+class RandomBatch:
+    """Quiescent-batch schedules: run to quiescence, complete one (sometimes several) pending gates, repeat."""
+
+    def __init__(self, rng, p_multi=0.25, cancel_at=None, cancel_run=0):
+        self.rng = rng
+        self.p_multi = p_multi
+        self.cancel_at = cancel_at
+        self.cancel_run = cancel_run
+        self.n = 0
+        self.burst = False
+
+    def next(self, ready, pending):
+        self.n += 1
+        if self.cancel_at is not None and self.n == self.cancel_at:
+            return ['c', self.cancel_run]
+        if ready and not (self.burst and pending and self.rng.random() < self.p_multi):
+            self.burst = False
+            return ['q']
+        if pending:
+            self.burst = True
+            return ['g', self.rng.choice(pending)]
+        if ready:
+            return ['q']
+        return None
+
+
+class RandomStep:
+    """Step-granular schedules: arbitrary interleaving of single loop iterations and gate completions."""
+
+    def __init__(self, rng, p_gate=0.35, cancel_at=None, cancel_run=0):
+        self.rng = rng
+        self.p_gate = p_gate
+        self.cancel_at = cancel_at
+        self.cancel_run = cancel_run
+        self.n = 0
+
+    def next(self, ready, pending):
+        self.n += 1
+        if self.cancel_at is not None and self.n == self.cancel_at:
+            return ['c', self.cancel_run]
+        if ready and pending:
+            return ['g', self.rng.choice(pending)] if self.rng.random() < self.p_gate else ['s']
+        if ready:
+            return ['s']
+        if pending:
+            return ['g', self.rng.choice(pending)]
+        return None
+
+
+def run_schedule(spec, sched, n_runs=1, overlap=False, inputs=None, tag='', step_limit=100000, built=None,
                  record_orders=True):
-    """Execute the schedule. sched: list of actions ['q'] | ['s'] | ['g', idx] | ['c', run] | ['start', run].
-    When the schedule is exhausted the default policy (run to quiescence, complete pending gate 0) continues
-    until every started run is done or nothing can move.
-    Sequential histories (overlap=False, n_runs>1): run k+1 starts when run k is done and the loop drained."""
+    """Run the real engine under a schedule. sched: a policy object (Replay / RandomBatch / RandomStep) or a plain
+    action list (wrapped in Replay). Actions: ['q'] run to quiescence, ['s'] one loop iteration, ['g', gid] complete
+    the gate gid, ['c', run] cancel the task of run #run. The explicit actions actually performed are returned in
+    obs['actions'] (a complete replay). Sequential histories (overlap=False, n_runs>1): run k+1 starts when run k is
+    done and the loop is drained."""
     import ml_pipeline_engine.dag.manager as mgr_mod
     ensure_pools()
     built = built or build(spec, tag)
     key = built['key']
+    policy = Replay(sched) if isinstance(sched, list) else sched
+    multi = n_runs > 1
     orders = []
     descs = {}
 
@@ -277,9 +370,9 @@ def run_schedule(spec, sched, n_runs=1, overlap=False, inputs=None, tag='', step
             orders.append(dict(source=key(dag.source) if getattr(dag, 'source', None) is not None else None,
                                dest=key(dag.dest) if getattr(dag, 'dest', None) is not None else None,
                                rec=bool(dag.is_recurrent), oneof=bool(dag.is_oneof), nested=bool(dag.is_nested_oneof),
-                               order=[key(n) for n in b]))
+                               nodes=[key(n) for n in dag.nodes], order=[key(n) for n in b]))
         else:
-            descs[str(key(a))] = [key(n) for n in b]
+            descs[json.dumps(key(a))] = [key(n) for n in b]
 
     real_nx = mgr_mod.nx
     if isinstance(real_nx, NxProxy):
@@ -287,9 +380,22 @@ def run_schedule(spec, sched, n_runs=1, overlap=False, inputs=None, tag='', step
     mgr_mod.nx = NxProxy(real_nx, rec) if record_orders else real_nx
     loop = VLoop()
     loop.on_executor = _exec_hook(loop)
+    timer_counts = {}
+
+    def on_timer(trec):
+        owner = trec['owner']
+        k = key(owner)
+        if k[0] == 'n':
+            rt = CUR.get(None)
+            ridx = rt.run_idx if rt is not None else 0
+            c = timer_counts.get((ridx, k[1]), 0)
+            timer_counts[(ridx, k[1])] = c + 1
+            trec['gid'] = ['t', k[1], c]
+            trec['run'] = ridx
+    loop.on_timer = on_timer
     snaps = [snapshot(built)]
     runs = []
-    obs = dict(quiescent=[], steps=0)
+    obs = dict(quiescent=[], steps=0, actions=[], missing=0)
     try:
         with running(loop):
             def start_run(idx):
@@ -303,7 +409,6 @@ def run_schedule(spec, sched, n_runs=1, overlap=False, inputs=None, tag='', step
             if overlap:
                 for i in range(1, n_runs):
                     start_run(i)
-            pos = 0
             verdict = None
             total = 0
             while True:
@@ -315,6 +420,7 @@ def run_schedule(spec, sched, n_runs=1, overlap=False, inputs=None, tag='', step
                     if not overlap and len(runs) < n_runs:
                         loop.run_ready(step_limit)
                         snaps.append(snapshot(built))
+                        obs['actions'].append(['next_run'])
                         start_run(len(runs))
                         continue
                     verdict = 'finished'
@@ -323,37 +429,33 @@ def run_schedule(spec, sched, n_runs=1, overlap=False, inputs=None, tag='', step
                 if total > step_limit:
                     verdict = 'steplimit'
                     break
-                if pos < len(sched):
-                    act = sched[pos]
-                    pos += 1
-                else:
-                    act = ['auto']
+                pend = pending_gates(runs, loop, multi)
+                act = policy.next(bool(loop.ready), [g for g, _ in pend])
+                if act is None:
+                    verdict = 'deadlock'
+                    break
                 if act[0] == 's':
                     if loop.ready:
                         loop.step()
+                        obs['actions'].append(['s'])
                 elif act[0] == 'q':
                     loop.run_ready(step_limit)
+                    obs['actions'].append(['q'])
                 elif act[0] == 'g':
-                    pend = pending_gates(runs, loop)
-                    if pend:
+                    hit = [c for g, c in pend if g == act[1]]
+                    if hit:
                         if not loop.ready:
-                            obs['quiescent'].append([list(g) for g, _ in pend])
-                        complete(loop, pend[act[1] % len(pend)][1])
+                            obs['quiescent'].append([g for g, _ in pend])
+                        complete(loop, hit[0])
+                        obs['actions'].append(['g', act[1]])
+                    else:
+                        obs['missing'] += 1
                 elif act[0] == 'c':
                     r = runs[act[1] % len(runs)]
                     if not r.main.done():
                         r.main.cancel()
                         r.cancel_requested = True
-                elif act[0] == 'auto':
-                    if loop.ready:
-                        loop.run_ready(step_limit)
-                        continue
-                    pend = pending_gates(runs, loop)
-                    if not pend:
-                        verdict = 'deadlock'
-                        break
-                    obs['quiescent'].append([list(g) for g, _ in pend])
-                    complete(loop, pend[0][1])
+                        obs['actions'].append(['c', act[1] % len(runs)])
             # drain
             drained = 0
             while loop.ready and drained < 100000:
@@ -369,7 +471,7 @@ def run_schedule(spec, sched, n_runs=1, overlap=False, inputs=None, tag='', step
                 obs['runs'].append(dict(outcome=outcome_of(r.main), trace=r.rt.trace, post_events=post,
                                         input_before=ps.canon(r.input_before), input_after=ps.canon(r.input_kwargs),
                                         cancel_requested=getattr(r, 'cancel_requested', False),
-                                        pending_gates_left=[list(map(str, g)) for g in r.rt.pending()],
+                                        pending_gates_left=[gate_json(g) for g, f in r.rt.gates.items() if not f.done()],
                                         result_identity=(bool(r.rt.completed_results) and r.main.done() and not r.main.cancelled()
                                                          and r.main.exception() is None
                                                          and all(x is r.main.result() for x in r.rt.completed_results)),
